@@ -997,6 +997,9 @@ func (v *Env) call(x *SExpr) Value {
 				v.fail("unchanged_except needs a slice")
 			}
 			return Scalar{v.unchangedExcept(a)}
+		case "errno": // the error value wrapping a syscall.Errno
+			a := v.unifyInt(v.eval(args[0]))
+			return IfaceV{ID: App("iface:syscall.Errno", Ref, Conv(a, Ref))}
 		case "iszero": // the value equals the zero value of its type
 			a := v.eval(args[0])
 			return Scalar{v.e.isZeroValue(a)}
@@ -1270,5 +1273,16 @@ func (e *Exec) isZeroValue(a Value) *Term {
 		return Eq(x.ID, ConstI(0, Ref))
 	}
 	e.errorf("iszero of %T", a)
+	return nil
+}
+
+func (v *Env) unifyInt(a Value) *Term {
+	switch x := a.(type) {
+	case UntypedInt:
+		return Const(x.V, IntSort(64, false))
+	case Scalar:
+		return x.T
+	}
+	v.fail("integer expected")
 	return nil
 }
